@@ -166,6 +166,7 @@ def run_job(job):
                     "threads": rng.choice([1, 2, 4]), "fork": rng.random() < 0.5,
                     "strategy": rng.choice(STRATEGIES), "pseed": rng.getrandbits(48),
                     "name": rng.choice(["prog", "libfoo.so", "plugin.so.1"]),
+                    "via_symlink": rng.random() < 0.35,
                 })
         n = 0
         for sc in scenarios:
@@ -183,6 +184,12 @@ def run_job(job):
             if r1.status != 0:
                 raise HarnessError(f"v1 link failed: {r1.err_text()[-300:]}")
             path = os.path.join(d, sc["name"])
+            if sc.get("via_symlink"):
+                # The output path is a symlink to the versioned file (libfoo.so -> libfoo.so.1).
+                real = path + ".1"
+                os.rename(path, real)
+                os.symlink(os.path.basename(real), path)
+                c["via_symlink"] = c.get("via_symlink", 0) + 1
             user = start_user(kind, path)
             try:
                 argv = base + [o2, f"--threads={sc['threads']}"]
